@@ -66,7 +66,6 @@ def chunkings(r, pkts, bufsize, mode):
         if cpos < len(data) and r.random() < 0.35:
             for (b0, b1) in body:
                 if b0 < cpos < b1 and prev < cpos and max(prev, b0) < cpos:
-                    # inside the part read through Peek/Discard (not ReadAll: it has no deadline)
                     args.append("tmo")
                     break
         prev = cpos
@@ -103,8 +102,8 @@ def run(ctx):
         else:
             sc.append("dial ok " + H(mq.connack()))
             rest = args
-        # no ReadAll when a timeout lies in the stream (ReadAll reads without a deadline): skip big ones instead
-        use_readall = "tmo" not in rest and r.random() < 0.7
+        # ReadAll tolerates a deadline expiry that saw progress, as every other read does (F16 repair)
+        use_readall = r.random() < 0.7
         sc.append("feed " + " ".join(rest + ["eof"]) if rest else "feed eof")
         for (topic, payload, qos) in expect:
             sc.append("rs")
